@@ -46,12 +46,14 @@ theorem padGrid_dims (g : GridM α) (a p : NDArr α) (widths : List (String × N
     (b : KW String) (f : KW α) (h : padGrid g a widths b f = .ok p) : p.dims = a.dims := by
   unfold padGrid at h
   split at h
-  · cases h; rfl
-  · simp only [bind, Except.bind] at h
-    split at h
-    · cases h
-    · cases h
-      exact padSeq_dims _ _
+  · cases h
+  · split at h
+    · cases h; rfl
+    · simp only [bind, Except.bind] at h
+      split at h
+      · cases h
+      · cases h
+        exact padSeq_dims _ _
 
 theorem substList_spec (m : List (String × String)) (l ws : List (String × Nat × Nat))
     (h : substList m l = some ws) :
